@@ -43,6 +43,10 @@ func main() {
 		}
 	}
 
+	ir.KnownFuncs = rules.KnownFuncs()
+	if *dump == "knownfuncs" {
+		ir.KnownFuncs = nil
+	}
 	load := func(dir, goos string, patterns ...string) (*ir.Universe, error) {
 		return ir.Load(root, filepath.Join(root, dir), goos, patterns...)
 	}
@@ -100,7 +104,7 @@ func main() {
 		}
 		sort.Strings(pk)
 		analysed = append(analysed, map[string]interface{}{
-			"GOOS": cfg, "packages": pk, "repo_functions": len(u.RepoFuncs()),
+			"GOOS": cfg, "packages": pk, "repo_functions": len(u.RepoFuncs()), "helpers_expanded": inlinedList(u),
 		})
 	}
 	r.Analysed["build_configurations"] = analysed
@@ -115,6 +119,14 @@ func main() {
 	os.Exit(res.ExitCode)
 }
 
+func inlinedList(u *ir.Universe) []string {
+	out := []string{}
+	for _, r := range u.Inlined {
+		out = append(out, r.Callee+" into "+r.Caller+" at "+r.Pos)
+	}
+	return out
+}
+
 func fatal(prop, format string, args ...interface{}) {
 	fmt.Fprintf(os.Stderr, "cdiverif: "+format+"\n", args...)
 	if prop != "" {
@@ -125,6 +137,12 @@ func fatal(prop, format string, args ...interface{}) {
 
 func doDump(u *ir.Universe, what string) {
 	kind, name, _ := strings.Cut(what, ":")
+	if kind == "knownfuncs" {
+		for _, k := range u.FuncKeys() {
+			fmt.Println(k)
+		}
+		return
+	}
 	if kind == "funcs" {
 		for _, f := range u.RepoFuncs() {
 			fmt.Println(u.ShortName(f))
